@@ -644,9 +644,10 @@ def run(chk):
     chk.assumptions += ['host + - * / % ** on int/float are the numeric operations; value_string / value_boolean / value_compare are checked by C13 / C11',
                         'models are schema-valid']
     ee = EvalExpr(chk.repo, 'C03.X')
-    bs = ee.binary()
-    chk.guard('C03.X', check_dispatch, chk, ee, bs)
-    chk.guard('C03.T', check_table, chk, ee, bs)
+    bs = chk.guard('C03.X', ee.binary)
+    if bs is not None:
+        chk.guard('C03.X', check_dispatch, chk, ee, bs)
+        chk.guard('C03.T', check_table, chk, ee, bs)
     chk.guard('C03.T', check_unary, chk, ee)
     from .. import evalsim
     what = {'lazy': '&& and || return the left value or evaluate the right operand, decided by value_boolean(left)', 'lazy-if': 'if() evaluates the condition once and only the selected branch',
@@ -654,7 +655,10 @@ def run(chk):
     chk.guard('C03.S', evalsim.report, chk, {'lazy': 'C03.S', 'truth': 'C03.S'}, what)
     chk.guard('C03.I', evalsim.report, chk, {'lazy-if': 'C03.I'}, what)
     chk.guard('C03.E', evalsim.report, chk, {'args': 'C03.E'}, what)
-    chk.guard('C03.E', check_once, chk, ee, bs)
+    what['once'] = 'both operands of each of the 12 arithmetic / relational operators are evaluated exactly once, left before right, whatever the left value is (null, string, number, boolean)'
+    chk.guard('C03.E', evalsim.report, chk, {'once': 'C03.E'}, what)
+    if bs is not None:
+        chk.guard('C03.E', check_once, chk, ee, bs)
     # "comparisons use the total value order": the relational branches and value_compare itself (rules shared with C11)
     from . import c11
     for r in ('C11.P', 'C11.F', 'C11.C', 'C11.S'):
